@@ -80,6 +80,10 @@ func (w *World) Converge(ns, name string, pendingChanges int) ConvergeResult {
 		case e.Status.Canary == nil:
 			// canary not started yet (status not written): let it start, then validate
 			res.Resolution = "validate-late"
+		case up == nil || e.Status.Canary.ReplicaSet != up.Name:
+			// the status still names an earlier canary replica set (the reconcile that would have
+			// replaced it keeps failing on node selection): commands would act on that stale one
+			res.Resolution = "validate-late"
 		default:
 			switch w.R.Intn(3) {
 			case 0:
@@ -111,11 +115,16 @@ func (w *World) Converge(ns, name string, pendingChanges int) ConvergeResult {
 	quiet := 0
 	for res.Rounds < res.Bound+3 {
 		w0 := w.podRSWrites
-		w.Round(step)
+		if mr := w.Round(step); mr > step {
+			// a canary duration / noRestartsDuration is still running: fast-forward to its end
+			// (waiting is not progress the bound is about)
+			w.Advance(mr)
+		}
 		res.Rounds++
 		if res.Resolution == "validate-late" {
 			if in, _, _ := w.CanaryInProgress(ns, name); in {
-				if ee := kit.GetEDS(w.S, ns, name); ee != nil && ee.Status.Canary != nil {
+				_, _, up2 := w.CanaryInProgress(ns, name)
+				if ee := kit.GetEDS(w.S, ns, name); ee != nil && ee.Status.Canary != nil && up2 != nil && ee.Status.Canary.ReplicaSet == up2.Name {
 					if err := w.Kubectl("canary-validate", ns, name); err == nil {
 						res.Resolution = "kubectl-validate"
 					}
@@ -155,7 +164,12 @@ func (w *World) Converge(ns, name string, pendingChanges int) ConvergeResult {
 				}
 			}
 		}
-		want, _ := kit.Resolve(ee.Spec.Strategy.Canary.Replicas, targeted)
+		// the controller resolves a percentage against the node count it last published
+		base := targeted
+		if d := int(ee.Status.Desired); d > base {
+			base = d
+		}
+		want, _ := kit.Resolve(ee.Spec.Strategy.Canary.Replicas, base)
 		if valid < want {
 			ctx.Count("C02.excluded-unsatisfiable-canary")
 			return res
@@ -259,11 +273,18 @@ func (m *Monitors) AtFixpoint(ns, name, live string, res ConvergeResult) {
 	w := m.w
 	ctx := w.Ctx
 	ctx.Count("C02.fixpoints-reached")
-	ctx.Count("C14.fixpoints-judged")
 	e := kit.GetEDS(w.S, ns, name)
 	if e == nil {
 		return
 	}
+	if w.LastErr["eds "+ns+"/"+name] != "" {
+		// the ExtendedDaemonSet reconcile keeps returning an error (unsatisfiable canary node
+		// selection): it returns before writing its status, so the quiescent-state clauses have
+		// no written status to be judged on. Observed, counted, not judged.
+		ctx.Count("C14.fixpoints-skipped-reconcile-error")
+		return
+	}
+	ctx.Count("C14.fixpoints-judged")
 	eligible, exist, ready, liveN := 0, 0, 0, 0
 	for _, n := range kit.Nodes(w.S) {
 		if oracle.Eligible(n, &e.Spec.Template.Spec) {
@@ -305,7 +326,11 @@ func (m *Monitors) AtFixpoint(ns, name, live string, res ConvergeResult) {
 		m.viol("C14", "C14.fixpoint-counts", merge(attrs, "field", "upToDate"), nil, d)
 	}
 	if st.Canary != nil {
-		m.viol("C02", "C02.canary-left-open", attrs, nil, d)
+		if strings.Contains(w.LastErr["eds "+ns+"/"+name], "unable to select enough node") {
+			ctx.Count("C02.excluded-unsatisfiable-canary")
+		} else {
+			m.viol("C02", "C02.canary-left-open", attrs, nil, d)
+		}
 	}
 	if res.Resolution == "kubectl-fail" || res.Resolution == "already-failed" {
 		ctx.Count("C07.rollback-fixpoints-judged")
